@@ -330,6 +330,8 @@ theorem regcomp_atoms {I : Bytes → Prop} {Q : Atom → Prop} (hI : ParseInv I 
   · cases h
   · cases h
   · rename_i t ht
+    split at h
+    · cases h
     simp only [Option.some.injEq] at h
     subst h
     intro a ha
